@@ -1118,6 +1118,8 @@ class Interp:
             return False
         if '[' in nm:
             return False                       # an element of a list / dict of Signals, not a plain local
+        if _eq_sites(self.index, getattr(si, 'var_file', None) or self.curfile, nm) != 1:
+            return False                       # assigned at more than one place (a default plus overrides): a real signal
         fkey = getattr(si, 'var_file', None) or self.curfile
         ref = _signals_ref().get(fkey)
         if ref is None:
@@ -1157,6 +1159,13 @@ class Interp:
             return
         if isinstance(v, Stmt):
             def emit(lhs, rhs, guard):
+                if isinstance(rhs, E) and rhs.op == 'cat' and sum(1 for x in rhs.args if isinstance(x, E) and x.op == 'mux' and len(x.args) == 3) == 1:
+                    # Cat(a, Mux(c, x, y)) is Mux(c, Cat(a, x), Cat(a, y)): lift the selection out, then split it into arms
+                    i_ = [k for k, x in enumerate(rhs.args) if isinstance(x, E) and x.op == 'mux' and len(x.args) == 3][0]
+                    mx = rhs.args[i_]
+                    if isinstance(mx.args[0], E) and all(isinstance(b, E) and b.w == mx.w and mx.w is not None for b in mx.args[1:]):
+                        alts = [E('cat', rhs.args[:i_] + (b,) + rhs.args[i_ + 1:], w=rhs.w) for b in mx.args[1:]]
+                        rhs = E('mux', (mx.args[0], alts[0], alts[1]), w=rhs.w)
                 if isinstance(rhs, E) and rhs.op == 'mux' and len(rhs.args) == 3 and isinstance(rhs.args[0], E):
                     # x.eq(Mux(c, a, b)) is `with m.If(c): x.eq(a)` / `with m.Else(): x.eq(b)`: one form for both spellings
                     c = rhs.args[0]
@@ -1442,6 +1451,26 @@ def _ongoing_to_state(ir):
                 a.rhs = E('const', val=1, w=1)
                 a.state = (hit[0].e.args[0], hit[0].e.args[1])
                 a.states = (a.state,)
+
+
+_EQSITES = {}
+
+
+def _eq_sites(index, relpath, name):
+    """Number of places in a file where the local `name` is the target of `.eq(` (plain or inside a Cat on the left)."""
+    key = (relpath, name)
+    if key not in _EQSITES:
+        import re
+        src = None
+        for mi in index.modules.values():
+            if mi.relpath == relpath:
+                src = mi.src
+                break
+        if src is None:
+            _EQSITES[key] = 1
+        else:
+            _EQSITES[key] = len(re.findall(r'(?<![\w.])%s\s*(?:\[[^\]]*\]\s*)?\.eq\(' % re.escape(name), src))
+    return _EQSITES[key]
 
 
 _SIGREF = None
